@@ -125,3 +125,16 @@ impl<'a> SessionData<'a> {
         packet_id
     }
 }
+
+#[cfg(minimq_verif)]
+impl SessionData<'_> {
+    /// Verification hook: the next packet identifier the allocator will hand out.
+    pub(crate) fn verif_packet_id(&self) -> u16 {
+        self.packet_id.get()
+    }
+
+    /// Verification hook: preset the packet identifier counter (0 is mapped to 1).
+    pub(crate) fn verif_set_packet_id(&mut self, packet_id: u16) {
+        self.packet_id = NonZeroU16::new(packet_id).unwrap_or(NonZeroU16::new(1).unwrap());
+    }
+}
